@@ -605,9 +605,13 @@ def rotate(ctx):
         try:
             val = ev.ev(vol[0].value, Path({'newvects': W}))
             ok = sp.expand(val ** 2 - sp.Matrix(W.tolist()).det() ** 2) == 0
+            # ... and positive for a left-handed set of vectors too (the count of atoms expected is a volume ratio)
+            for Wc in ([[0, 2, 0], [2, 0, 0], [0, 0, 2]], [[2, 0, 0], [0, 2, 0], [0, 0, 2]], [[-1, 0, 0], [0, 3, 0], [1, 0, 2]]):
+                vc = SymEval({'np': 'numpy'}).ev(vol[0].value, Path({'newvects': np.array([[sp.Integer(x) for x in r] for r in Wc], dtype=object)}))
+                ok = ok and sp.simplify(sp.sympify(vc) - abs(sp.Matrix(Wc).det())) == 0
         except Opaque:
             ok = False
-    ctx.ob('ROTATE', loc, 'the new volume is |a\'·(b\'×c\')| of the new vectors', ok, node=vol[0] if vol else fn)
+    ctx.ob('ROTATE', loc, 'the new volume is |a\'·(b\'×c\')| of the new vectors, positive for left-handed sets of vectors as well', ok, node=vol[0] if vol else fn)
     nvs = assigns_to(fn, 'newvects')
     ctx.ob('ROTATE', loc, 'the new vectors are the Cartesian images of the integer indices in the current cell', len(nvs) == 1 and norm(nvs[0].value).replace(' ', '') == 'miller.vector_crystal_to_cartesian(uvws,box=self.box)', node=fn)
     # bounding multipliers: the branch that builds the supercell is interpreted on symbolic integer indices up to the supersize() call
@@ -816,8 +820,9 @@ def property_types(ctx):
 
 
 def run(ctx):
-    from .c05 import normalize as normalize_rules, normalize_state
+    from .c05 import normalize as normalize_rules, normalize_state, wrap as wrap_rules
+    from .c01 import scale_free_cleanup
     ctx.explanation = ('C04: supersize is evaluated on a model system with symbolic positions and a tagged property (image set, counts, cell); the centering tables are extracted and checked in exact '
                        'rationals (inverse pairs, determinants, lattice points, integrality of the supercell indices); conversion wiring; rotate() guards and bounding multipliers by evaluation on symbolic '
                        'integer indices; anchoring of the cut-out cell; operand preservation; normalize as in C05. Not decided: that the atoms kept are the right ones for a concrete cell.')
-    ctx.run_rules([supersize, property_types, centering, basis_sites, conversion, rotate, origin_anchor, preserve, normalize_rules, normalize_state])
+    ctx.run_rules([supersize, property_types, centering, basis_sites, conversion, rotate, origin_anchor, preserve, normalize_rules, normalize_state, wrap_rules, lambda c: scale_free_cleanup(c, 'CELL-SCALE') and None])
